@@ -22,7 +22,8 @@ RULE = (
     "also in lowest-order N1curl/N2curl/RT/BDM spaces (simplices), their dofs obtained per cell by interpolating a physical field of the space "
     "through that cell's own geometry and numbering. "
     "Convention-free oracle: (1) for every numbering pair the probe kernel of |x('+')-x('-')|^2 dS must vanish for at least one "
-    "pair of permutation codes (the coinciding codes M); (2) for all numbering pairs and all code pairs in M the kernel result, "
+    "pair of permutation codes (the coinciding codes M), and the reflection counts N mod 2 of every coinciding pair must add up to the relative "
+    "orientation of the two sides' facet parametrisations; (2) for all numbering pairs and all code pairs in M the kernel result, "
     "mapped back to physical nodes, equals the reference evaluator's value for the base numbering with codes (0,0) (code 0 is "
     "the identity, so no rotation/reflection convention enters); (3) needs_facet_permutations == false implies bit-identical "
     "output for every permutation argument including NULL. Non-trivial = numbering pair whose coinciding codes are not (0,0) and "
@@ -99,6 +100,29 @@ def local_facet(cell, sigma, old_facet):
         if set(vs) == new_vs:
             return f
     raise RuntimeError("facet not found")
+
+
+def relative_facet_parity(cell, Ps, ents):
+    """0 if the two cells' reference parametrisations of the shared facet have the same orientation, 1 otherwise.
+
+    Side r parametrises the facet through the reference vertices of its local facet ents[r]; matching the physical vertex
+    positions gives the vertex permutation between the two parametrisations, whose affine map is orientation preserving or not.
+    """
+    topo = basix.topology(refeval.CT[cell])
+    tdim = len(topo) - 1
+    fct = refeval.sub_entity_type(cell, tdim - 1, ents[0])
+    V = np.asarray(basix.geometry(fct))
+    Q = [np.asarray(Ps[r])[topo[tdim - 1][ents[r]]] for r in range(2)]
+    pi = []
+    for i in range(Q[0].shape[0]):
+        dist = np.abs(Q[1] - Q[0][i]).sum(axis=1)
+        pi.append(int(np.argmin(dist)))
+        if dist[pi[-1]] > 1e-5 * (1 + np.abs(Q[0]).max()):
+            raise RuntimeError("harness: the two cells do not share the facet vertices")
+    k = V.shape[1]
+    M0 = np.array([V[i + 1] - V[0] for i in range(k)]).T
+    M1 = np.array([V[pi[i + 1]] - V[pi[0]] for i in range(k)]).T
+    return 0 if np.linalg.det(M1) * np.linalg.det(M0) > 0 else 1
 
 
 def poly_field(seed, k, degree, gdim, ncomp):
@@ -289,6 +313,14 @@ def evaluate(spec, wd, max_pairs, rng_seed):
                 return Outcome("violation", case_id=h, classes=classes, key=f"{PROP}:no-coinciding-code:{cell}", bucket=f"{PROP}:no-coinciding-code:{cell}",
                                what=f"numbering pair {sig}, facets {ents}: no pair of permutation codes makes the two sides' quadrature points coincide "
                                     f"(probe values {[round(v, 6) for _, v in M][:12]})", replay=dict(replay, sigmas=[list(s) for s in sig]), sample=sample)
+            # "N mod 2 reflections": the relative orientation of the two sides' facet parametrisations fixes the parity of p0 + p1
+            par = relative_facet_parity(cell, Ps, ents)
+            wrong = [cp for cp in Mset if (cp[0] + cp[1]) % 2 != par]
+            if wrong:
+                return Outcome("violation", case_id=h, classes=classes, key=f"{PROP}:parity:{cell}", bucket=f"{PROP}:reflection-parity:{cell}",
+                               what=f"numbering pair {sig}, facets {ents}: the two sides parametrise the facet with relative orientation parity {par}, but the "
+                                    f"quadrature points coincide for permutation codes {wrong} whose reflection counts (N mod 2) have the other parity",
+                               replay=dict(replay, sigmas=[list(s) for s in sig]), sample=sample)
             vals = {}
             for cp in codes:
                 A, problems, n, _ = fr.run_group(itype, sid, d, entity=ents, perm=cp)
